@@ -1276,12 +1276,17 @@ func (m *repoManager) getBranchVersion(uuid dvid.UUID, name string) (dvid.UUID, 
 	var r *repoT
 	var err error
 	if uuid == dvid.NilUUID {
-		if len(m.repoToUUID) > 1 {
+		m.idMutex.RLock()
+		numRepos := len(m.repoToUUID)
+		m.idMutex.RUnlock()
+		if numRepos > 1 {
 			return dvid.NilUUID, 0, fmt.Errorf("UUID must be specified if more than one repo exists")
 		}
+		m.repoMutex.RLock()
 		for _, r = range m.repos {
 			break
 		}
+		m.repoMutex.RUnlock()
 	} else {
 		r, err = m.repoFromUUID(uuid)
 		if err != nil {
@@ -1312,13 +1317,17 @@ func (m *repoManager) getBranchVersion(uuid dvid.UUID, name string) (dvid.UUID, 
 			name = "master"
 		}
 		branchUUID, found = m.branchToUUID[string(r.uuid)+name]
-		m.branchMutex.RUnlock()
 		if !found {
 			dvid.Infof("Branch map: %v\n", m.branchToUUID)
+		}
+		m.branchMutex.RUnlock()
+		if !found {
 			return dvid.NilUUID, 0, fmt.Errorf("branch %q not found in repo %q", name, uuid)
 		}
 	}
+	m.idMutex.RLock()
 	branchV, found := m.uuidToVersion[branchUUID]
+	m.idMutex.RUnlock()
 	if !found {
 		err := fmt.Errorf("branch %q had leaf UUID (%s) without a version ID", name, branchUUID)
 		return dvid.NilUUID, 0, err
